@@ -121,10 +121,10 @@ def delta_cleaned(V):
         out.prove('length-kept', T.seq(r.shape[0], n))
         out.prove('first-peak-carries-zero', T.seq(r[p[0]], 0))
         for j in V.idx(1, m, 'j'):
-            out.prove('peak-entry-is-change-since-previous-peak', T.seq(r[p[j]], T.ssub(c[p[j]], c[p[j - 1]])))
+            out.prove('peak-entry-is-change-since-previous-peak', T.seq(r[p[j]], T.ssub(c[p[j]], c[p[j - 1]])), inst=[j, T.ssub(j, 1)])
         for i in V.idx(0, n, 'i'):
             j = V.skolem('jj', 1, m)
-            out.prove('zero-strictly-between-adjacent-peaks', T.simplies(T.sand(T.slt(p[j - 1], i), T.slt(i, p[j])), T.seq(r[i], 0)))
+            out.prove('zero-strictly-between-adjacent-peaks', T.simplies(T.sand(T.slt(p[j - 1], i), T.slt(i, p[j])), T.seq(r[i], 0)), inst=[j, T.ssub(j, 1)])
         out.unchanged('c', c)
 
 
@@ -154,9 +154,9 @@ def cyclic_cleaned(V):
             v = c[p[j]]
             sj = T.site(T.seq(T.smod(j, 2), 1), -1, 1)
             want = T.site(T.slt(T.smul(T.sneg(sj), v), 0), T.sneg(T.sabs(v)), T.sabs(v))
-            out.prove('peak-entry-magnitude-is-peak-value-magnitude', T.seq(T.sabs(r[p[j]]), T.sabs(v)))
-            out.prove('peak-entry-sign-rule', T.seq(r[p[j]], want))
+            out.prove('peak-entry-magnitude-is-peak-value-magnitude', T.seq(T.sabs(r[p[j]]), T.sabs(v)), inst=[j])
+            out.prove('peak-entry-sign-rule', T.seq(r[p[j]], want), inst=[j])
         for i in V.idx(0, n, 'i'):
             j = V.skolem('jj', 1, m)
-            out.prove('zero-strictly-between-adjacent-peaks', T.simplies(T.sand(T.slt(p[j - 1], i), T.slt(i, p[j])), T.seq(r[i], 0)))
+            out.prove('zero-strictly-between-adjacent-peaks', T.simplies(T.sand(T.slt(p[j - 1], i), T.slt(i, p[j])), T.seq(r[i], 0)), inst=[j, T.ssub(j, 1)])
         out.unchanged('c', c)
